@@ -208,5 +208,5 @@ CL_LOAD = dict(
 
 CONTRACTS = [ES_VARS, DOCKER_INIT, CLEANUP, CL_LOAD, PROV_VARS]
 ASSUMPTIONS = ["str(int), os.path.join and str.join are uninterpreted functions; values of mixed types in variable maps are boxed into an untyped universe (injective embeddings)", "os.path.exists returns an arbitrary bool; shutil.rmtree may raise OSError"]
-NOT_DECIDED = ["team.load_car / CarLoader.load_car precedence loops (configparser), _apply_config template mirroring (os.walk, Jinja) -- not yet under contract in this revision"]
+NOT_DECIDED = ["team.load_car car-order loop, _apply_config template mirroring (os.walk, Jinja) -- not under contract"]
 TRUSTED = []
